@@ -121,7 +121,15 @@ func c20Request(ipSpec string) *http.Request {
 	return r
 }
 
-func c20IP(ipSpec string) string { return strings.TrimPrefix(ipSpec, "xff:") }
+// c20IP is the address a request comes from, whatever way it is written (2001:db8::1 and 2001:DB8:0:0:0:0:0:1 are
+// one address; an IPv4-mapped IPv6 address is the IPv4 address it carries).
+func c20IP(ipSpec string) string {
+	ip := strings.TrimPrefix(ipSpec, "xff:")
+	if p := net.ParseIP(ip); p != nil {
+		return p.String()
+	}
+	return ip
+}
 
 func TestVerifC20(t *testing.T) {
 	rep := vh.NewReport("C20")
@@ -142,6 +150,7 @@ func TestVerifC20(t *testing.T) {
 		{name: "boundary-tick", max: 1, clients: [][]string{{"1.2.3.4", "1.2.3.4"}, {"1.2.3.4"}}, reader: "1.2.3.4", tickTo: c20Interval + 1, startOff: c20Interval},
 		{name: "after-boundary", max: 1, clients: [][]string{{"1.2.3.4"}, {"1.2.3.4"}, {"5.6.7.8"}}, reader: "5.6.7.8", startOff: c20Interval + 1},
 		{name: "mapped-addresses", max: 1, clients: [][]string{{"xff:::ffff:10.2.3.4", "xff:::ffff:10.2.3.4", "xff:::ffff:10.2.3.4"}, {"xff:::ffff:1.2.3.4", "xff:::ffff:1.2.3.4"}, {"xff:10.2.3.4", "1.2.3.4"}}, reader: "xff:::ffff:1.2.3.4"},
+		{name: "two-spellings", max: 1, clients: [][]string{{"xff:2001:db8::1", "xff:2001:DB8:0:0:0:0:0:1"}, {"2001:db8::1"}, {"xff:2001:0db8::0001"}}, reader: "xff:2001:db8:0::1"},
 		{name: "after-boundary-logfile", max: 3, clients: [][]string{{"1.2.3.4", "1.2.3.4"}, {"1.2.3.4"}, {"5.6.7.8"}}, reader: "1.2.3.4", startOff: c20Interval + 1, logFile: true},
 		{name: "boundary-tick-logfile", max: 2, clients: [][]string{{"1.2.3.4", "1.2.3.4"}, {"1.2.3.4"}}, reader: "1.2.3.4", tickTo: c20Interval + 1, startOff: c20Interval, logFile: true},
 	}
